@@ -450,4 +450,90 @@ theorem change_is_reported (c : Cfg) (hs : c.strat ≠ .holdout false) (e : Ev) 
 /-- every strategy `src_search::validation_strategy(id)` installs (extracted table) reports its changes -/
 theorem installed_report : ∀ row ∈ Tables.installs, ∃ st, stratOf row = some st ∧ st ≠ .holdout false := by
   decide
+/-! ### what consecutive observations of a real search look like (relations decided by the driver) -/
+
+theorem evalFrame_key (f : Nat → Nat) (l : List Ex) : (evalFrame f l).map key = l.map key := by
+  unfold evalFrame
+  rw [List.map_map]
+  have : (key ∘ fun (x : Ex × Nat) => match x with | (e, i) => ({ e with diff := (e.diff + f i) % 2 ^ 64 } : Ex)) =
+      key ∘ Prod.fst := by funext x; rfl
+  rw [this, ← List.map_map]
+  simp
+
+theorem EvalRel.refl (s : St) : EvalRel s s := ⟨rfl, rfl⟩
+theorem EvalRel.trans {a b c : St} (h1 : EvalRel a b) (h2 : EvalRel b c) : EvalRel a c :=
+  ⟨h1.1.trans h2.1, h1.2.trans h2.2⟩
+
+theorem evalT_rel (c : Cfg) (f : Nat → Nat) (x : PS) : EvalRel x.s (step c (.evalT f) x).s :=
+  ⟨(evalFrame_key f x.s.tr).symm, rfl⟩
+theorem evalV_rel (c : Cfg) (f : Nat → Nat) (x : PS) : EvalRel x.s (step c (.evalV f) x).s :=
+  ⟨rfl, (evalFrame_key f x.s.va).symm⟩
+
+theorem reshuffleObs_of_step {pre mid : St} (h : ReshuffleStep pre mid) : ReshuffleObs pre mid :=
+  ⟨h.1, h.2.1, fun e he => (h.2.2.1 e he).1, h.2.2.2.1, h.2.2.2.2⟩
+
+theorem reshuffleObs_evalT {pre mid : St} (f : Nat → Nat) (h : ReshuffleObs pre mid) :
+    ReshuffleObs pre ⟨evalFrame f mid.tr, mid.va⟩ := by
+  obtain ⟨h1, h2, h3, h4, h5⟩ := h
+  refine ⟨?_, h2, ?_, h4, ?_⟩
+  · intro hn
+    have := congrArg List.length hn
+    simp [evalFrame_length] at this
+    exact h1 this
+  · intro e he
+    obtain ⟨e', he', ha, _⟩ := evalFrame_age f mid.tr e he
+    rw [ha]; exact h3 e' he'
+  · simpa [ids_append, ids_evalFrame] using h5
+
+/-- from one callback to the next (same run): what the model predicts is the relation the driver decides -/
+theorem dss_generation_obs (c : Cfg) (hd : c.strat = .dss) (hts : TsOK c.ts) (g : Nat) (gp : GenPlan) (x : PS)
+    (h2 : 2 ≤ x.size) : GenObs c.gap g x.s (final c (genEv g gp) x).s := by
+  unfold GenObs
+  simp only [genEv, final, List.foldl, step, hd, dssShake]
+  split
+  · rename_i h
+    exact ⟨⟨((evalFrame_key _ _).trans (evalFrame_key _ _)).symm, rfl⟩, rfl⟩
+  · rename_i h
+    have hh := shakeImpl_reshuffle c.P c.ts hts gp.shakeO.sel ⟨incAge x.s.tr, incAge x.s.va⟩
+      (by simpa [incAge, PS.size] using h2)
+    exact reshuffleObs_evalT _ (reshuffleObs_evalT _ (reshuffleObs_of_step hh))
+
+/-- from the last callback of a run to the return / the next `init`: `close` and the metrics -/
+theorem dss_end_obs (c : Cfg) (hd : c.strat = .dss) (r : Nat) (rp : RunPlan) (x : PS) :
+    EndObs x.s (final c (tailEv r rp) x).s := by
+  simp only [tailEv, final, List.foldl, step, hd, dssClose, moveToValidation, EndObs]
+  refine ⟨?_, ?_⟩
+  · simp [evalFrame]
+  · exact evalFrame_key _ _
+
+/-- from any earlier moment to the first callback of a run -/
+theorem dss_fresh_obs (c : Cfg) (hd : c.strat = .dss) (hts : TsOK c.ts) (pre : List Ev) (r : Nat) (o : Orc)
+    (f : Nat → Nat) (gp : GenPlan) (x : PS) (h2 : 2 ≤ x.size) :
+    FreshObs x.s (final c (pre ++ ([.init r o, .evalT f] ++ genEv 0 gp)) x).s := by
+  rw [final_append]
+  have hpay := (trace_inv c (fun y => y.pay.Perm x.pay) pre
+    (fun e _ y hy => (step_conserves c e y).trans hy) x (List.Perm.refl _)).2
+  have hsz : 2 ≤ (final c pre x).size := by rw [size_final]; exact h2
+  generalize final c pre x = y at hpay hsz
+  have hh := shakeImpl_reshuffle c.P c.ts hts o.sel ⟨resetAD y.s.tr, resetAD y.s.va⟩
+    (by simpa [resetAD_length, PS.size] using hsz)
+  simp only [List.cons_append, List.nil_append, genEv, final, List.foldl, step, hd, dssInit, dssShake, true_or,
+    ↓reduceIte]
+  obtain ⟨h1, h2', h3, h4, h5⟩ := reshuffleObs_evalT gp.breed (reshuffleObs_evalT gp.reeval
+    (reshuffleObs_evalT f (reshuffleObs_of_step hh)))
+  refine ⟨h1, h2', h3, ?_, ?_⟩
+  · intro e he
+    have hc := h4 e he
+    simp only at hc he
+    have hpos : 0 < (resetAD y.s.va ++ resetAD y.s.tr).count e := by
+      have : 0 < List.count e (shakeImpl c.P c.ts o.sel { tr := resetAD y.s.tr, va := resetAD y.s.va }).va :=
+        List.count_pos_iff.mpr he
+      omega
+    have hmem := List.count_pos_iff.mp hpos
+    rw [List.mem_append] at hmem
+    rcases hmem with hm | hm <;> exact mem_resetAD hm
+  · refine h5.trans ?_
+    simp only [ids_append, ids_resetAD]
+    refine List.perm_append_comm.trans ?_
+    simpa [PS.pay, ids_append] using hpay
 end Vita.C16
